@@ -73,6 +73,8 @@ func c04Run(f []string) (res string) {
 		return c04RunBig(f)
 	case "conc":
 		return c04RunConc(f)
+	case "gz":
+		return c04RunGz(f)
 	case "conccases":
 		// the case list for the race-detector run of extra/C04.py: `conccases <seed>`
 		seed, _ := strconv.ParseUint(f[1], 10, 64)
@@ -226,6 +228,7 @@ func c04Gen(r *Rand, tier string) []string {
 	out = append(out, c04GenMore(r, tier)...)
 	out = append(out, c04GenBig(r, tier)...)
 	out = append(out, c04GenConc(r, tier)...)
+	out = append(out, c04GenGz(r, tier)...)
 	if tier == "thorough" {
 		// exhaustive: all strings over {a,\n,\r} up to length 6 x buffer sizes 1..4 x one-byte reads / all-at-once
 		var rec func(cur []byte)
@@ -375,6 +378,9 @@ func c04Stats(cases []string) map[string]int {
 			continue
 		case "conc":
 			st["conc."+f[1]]++
+			continue
+		case "gz":
+			st["gz."+f[1]]++
 			continue
 		case "big":
 			st["big."+f[1]]++
